@@ -1,17 +1,17 @@
-//@ unit rdr_skippedString
-//@ props C01 C04 C03
+//@ unit rdr_peekString
+//@ props C01 C04
 //@ kind P
 //@ def quick kCharBufSize=4 STRMAX=6
 //@ def thorough kCharBufSize=8 STRMAX=10
 //@ rebind src/xercesc/internal/XMLReader.hpp kCharBufSize
-//@ enforce XMLReader_skippedString
+//@ enforce XMLReader_peekString
 //@ replace XMLReader_refreshCharBuffer
 //@ replace XMLString_stringLen
 //@ replace VERIF_memcmp
-//@ entry h_skippedString
+//@ entry h_peekString
 //@ note P: refills unbounded through the loop contract; the string argument lives in a harness object of STRMAX+1 elements (cbmc needs finite objects), its length is arbitrary up to STRMAX > kCharBufSize
 //@ note assumed: XMLString::stringLen returns the length of its argument (unit str_len); memcmp reads only the first n bytes of both operands and returns 0 only if they agree (ISO C)
-//@ note refreshCharBuffer is replaced by the contract proved in unit rdr_refreshCharBuffer (contracts/XMLReader_ri2.inc); its universal ghost G is THE index at which "the unread sequence is unchanged / shifted by strlen" is stated
+//@ note refreshCharBuffer is replaced by the contract proved in unit rdr_refreshCharBuffer (contracts/XMLReader_ri2.inc); its universal ghost G is THE index at which "the unread sequence is unchanged" is stated
 //@ note charsLeftInBuffer is extracted and verified in place
 #define VERIF_DEFINE_GHOSTS
 #include "verif_prelude.h"
@@ -22,27 +22,24 @@
 XMLSize_t SPARE0; XMLCh UG0;
 #define CUR_G (fCharBuf[(fCharIndex + G < kCharBufSize) ? fCharIndex + G : 0])    /* G-th character of the unread sequence */
 
-/*@extract src/xercesc/internal/XMLReader.cpp XMLReader::skippedString
+/*@extract src/xercesc/internal/XMLReader.cpp XMLReader::peekString
 ret false
 sub \bmemcmp\( => VERIF_memcmp(
 call refreshCharBuffer => XMLReader_refreshCharBuffer
 call charsLeftInBuffer => XMLReader_charsLeftInBuffer
 throws XMLReader_refreshCharBuffer
 contract
-__CPROVER_requires(RI_RDR && !verif_thrown && G < kCharBufSize && toSkip == STRP)
+__CPROVER_requires(RI_RDR && !verif_thrown && G < kCharBufSize && toPeek == STRP)
 __CPROVER_requires(SPARE0 == fCharsAvail - fCharIndex && UG0 == CUR_G)
-__CPROVER_assigns(fCurCol, fCharIndex, fCharsAvail, fNoMore, __CPROVER_object_upto(fCharBuf, sizeof(fCharBuf)), verif_thrown, verif_throw_type, verif_throw_code)
+__CPROVER_assigns(fCharIndex, fCharsAvail, fNoMore, __CPROVER_object_upto(fCharBuf, sizeof(fCharBuf)), verif_thrown, verif_throw_type, verif_throw_code)
 /* C01 */
 __CPROVER_ensures(RI_RDR && (verif_thrown ==> !__CPROVER_return_value))
-/* C04 failure: the unread sequence is unchanged (it may have grown at the far end): nothing consumed wherever the refills fell */
-__CPROVER_ensures((!verif_thrown && !__CPROVER_return_value) ==> (fCurCol == __CPROVER_old(fCurCol) && fCharsAvail - fCharIndex >= SPARE0 && (G < SPARE0 ==> CUR_G == UG0)))
-/* C04 success: exactly strlen characters were consumed -- the unread sequence is the old one shifted by strlen ... */
-__CPROVER_ensures(__CPROVER_return_value ==> (fCharIndex >= SRCLEN && fCharsAvail - fCharIndex + SRCLEN >= SPARE0))
-__CPROVER_ensures((__CPROVER_return_value && G >= SRCLEN && G < SPARE0) ==> fCharBuf[(fCharIndex + G - SRCLEN < kCharBufSize) ? fCharIndex + G - SRCLEN : 0] == UG0)
-/* ... they were the characters of the string ... */
-__CPROVER_ensures((__CPROVER_return_value && G < SRCLEN) ==> (fCharBuf[(fCharIndex - SRCLEN + G < kCharBufSize) ? fCharIndex - SRCLEN + G : 0] == STRP[G] && (G < SPARE0 ==> UG0 == STRP[G])))
-/* ... C03: and the column advanced by exactly strlen */
-__CPROVER_ensures(__CPROVER_return_value ==> fCurCol == __CPROVER_old(fCurCol) + SRCLEN)
+/* C04: success or failure, nothing is consumed: the unread sequence is unchanged (it may have grown at the far end) wherever the refills fell;
+   line and column are not even in the frame */
+__CPROVER_ensures(!verif_thrown ==> (fCharsAvail - fCharIndex >= SPARE0 && (G < SPARE0 ==> CUR_G == UG0)))
+/* success: the next strlen unread characters are the string */
+__CPROVER_ensures(__CPROVER_return_value ==> fCharsAvail - fCharIndex >= SRCLEN)
+__CPROVER_ensures((__CPROVER_return_value && G < SRCLEN) ==> (CUR_G == STRP[G] && (G < SPARE0 ==> UG0 == STRP[G])))
 loop 1
 __CPROVER_assigns(charsLeft, fCharIndex, fCharsAvail, fNoMore, __CPROVER_object_upto(fCharBuf, sizeof(fCharBuf)), verif_thrown, verif_throw_type, verif_throw_code)
 __CPROVER_loop_invariant(RI_RDR && !verif_thrown && charsLeft == fCharsAvail - fCharIndex && charsLeft >= SPARE0)
@@ -51,11 +48,11 @@ __CPROVER_loop_invariant((G < SPARE0) ==> CUR_G == UG0)
 __CPROVER_decreases(kCharBufSize - charsLeft)
 @*/
 
-void h_skippedString(void)
+void h_peekString(void)
 {
   VERIF_INPUT(SELF);
   STR_SETUP();
   verif_thrown = 0;
-  XMLReader_skippedString(STRP);
+  XMLReader_peekString(STRP);
   VERIF_CANARY("after call");
 }
